@@ -33,6 +33,10 @@ pub fn h_insert(n: usize, tab: [u8; 8], hb: u32) {
 }
 /// `kfix >= 0`: the key is concrete (one harness per key splits the query).
 pub fn h_insert_k(n: usize, tab: [u8; 8], hb: u32, kfix: i8) {
+    h_insert_kp(n, tab, hb, kfix, false)
+}
+/// `probe`: also run the C02 drain probe afterwards (expensive on this operation; thorough tier).
+pub fn h_insert_kp(n: usize, tab: [u8; 8], hb: u32, kfix: i8, probe: bool) {
     let st = sym_state(n, hb);
     let mut c = build(n, &st.heaps, st.max, tab, if n <= 2 { CAP_SMALL } else { CAP });
     tm::expect_no_grow(true);
@@ -100,7 +104,9 @@ pub fn h_insert_k(n: usize, tab: [u8; 8], hb: u32, kfix: i8) {
     }
     vassert!([C20], hashes <= 2 + departed, "insert computed more than two key hashes plus one per departing entry");
     inv(&c, n + 1);
-    drain_probe(&mut c, n + 1);
+    if probe {
+        drain_probe(&mut c, n + 1);
+    }
     finish(c, n, &[NEW_VID, NEW_KID]);
 }
 
@@ -145,6 +151,9 @@ pub fn h_try_insert(n: usize, tab: [u8; 8], hb: u32) {
     h_try_insert_k(n, tab, hb, -1)
 }
 pub fn h_try_insert_k(n: usize, tab: [u8; 8], hb: u32, kfix: i8) {
+    h_try_insert_kp(n, tab, hb, kfix, false)
+}
+pub fn h_try_insert_kp(n: usize, tab: [u8; 8], hb: u32, kfix: i8, probe: bool) {
     let st = sym_state(n, hb);
     let mut c = build(n, &st.heaps, st.max, tab, if n <= 2 { CAP_SMALL } else { CAP });
     tm::expect_no_grow(true);
@@ -161,8 +170,8 @@ pub fn h_try_insert_k(n: usize, tab: [u8; 8], hb: u32, kfix: i8) {
     vcover!(if present, e <= st.max && e > free, "try_insert: would eject and occupied at once");
     vcover!(if present, e <= free, "try_insert: occupied only");
     vcover!(if n > 0 && !present, e == free, "try_insert: exact fit succeeds");
-    vcover!(e == free + 1 && e <= st.max, "try_insert: one byte over the free space");
-    vcover!(e == st.max + 1, "try_insert: one byte over max_size");
+    vcover!(free.checked_add(1) == Some(e) && e <= st.max, "try_insert: one byte over the free space");
+    vcover!(st.max.checked_add(1) == Some(e), "try_insert: one byte over max_size");
     let ok = match r {
         Ok(()) => {
             vassert!([C10, C04], e <= free && !present, "try_insert succeeded although the entry is too large, does not fit the free space, or the key is present");
@@ -202,7 +211,9 @@ pub fn h_try_insert_k(n: usize, tab: [u8; 8], hb: u32, kfix: i8) {
     }
     vassert!([C20], hashes <= 2, "try_insert computed more than two key hashes");
     inv(&c, n + 1);
-    drain_probe(&mut c, n + 1);
+    if probe {
+        drain_probe(&mut c, n + 1);
+    }
     finish(c, n, &[NEW_VID, NEW_KID]);
 }
 
@@ -215,6 +226,9 @@ pub fn h_mutate(n: usize, tab: [u8; 8], hb: u32) {
     h_mutate_k(n, tab, hb, -1)
 }
 pub fn h_mutate_k(n: usize, tab: [u8; 8], hb: u32, kfix: i8) {
+    h_mutate_kp(n, tab, hb, kfix, false)
+}
+pub fn h_mutate_kp(n: usize, tab: [u8; 8], hb: u32, kfix: i8, probe: bool) {
     let st = sym_state(n, hb);
     let mut c = build(n, &st.heaps, st.max, tab, if n <= 2 { CAP_SMALL } else { CAP });
     let k = if kfix >= 0 { kfix as u8 } else { sym_key(n as u8 + 1) };
@@ -296,7 +310,9 @@ pub fn h_mutate_k(n: usize, tab: [u8; 8], hb: u32, kfix: i8) {
     }
     vassert!([C20], hashes <= 2 + departed, "mutate computed more than two key hashes plus one per departing entry");
     inv(&c, n + 1);
-    drain_probe(&mut c, n + 1);
+    if probe {
+        drain_probe(&mut c, n + 1);
+    }
     finish(c, n, &[]);
 }
 
@@ -538,37 +554,50 @@ pub fn h_history(ops: &[u8], hb: u32) {
 // tab_of(6) = [0,1,0,1] "mixed" (two collision classes); tab_of(0) = all keys collide; tab_of(14) = all distinct.
 // Heavy operations are split by concrete key (kN = key N; key n is the absent one): one query per key.
 harnesses! {
-    insert_n3_k0 [5] => h_insert_k(3, tab_of(6), 40, 0); //@ q=C01,C02,C03,C04,C05,C06,C07,C10,C20 to=1200
-    insert_n3_k1 [5] => h_insert_k(3, tab_of(6), 40, 1); //@ q=C01,C02,C03,C04,C05,C06,C07,C10,C20 to=1200
-    insert_n3_k2 [5] => h_insert_k(3, tab_of(6), 40, 2); //@ q=C01,C02,C03,C05 t=C04,C06,C07,C10,C20 to=1200
-    insert_n3_k3 [5] => h_insert_k(3, tab_of(6), 40, 3); //@ q=C01,C02,C03,C04,C05,C06,C07,C10,C20 to=1200
+    insert_n3_k0 [5] => h_insert_k(3, tab_of(6), 40, 0); //@ q=C01,C03,C04,C05,C06,C07,C10,C20 t=C02 to=1200
+    insert_n3_k1 [5] => h_insert_k(3, tab_of(6), 40, 1); //@ q=C01,C03,C04,C05,C06,C07,C10,C20 t=C02 to=1200
+    insert_n3_k2 [5] => h_insert_k(3, tab_of(6), 40, 2); //@ q=C01,C03,C05 t=C04,C06,C07,C10,C20,C02 to=1200
+    insert_n3_k3 [5] => h_insert_k(3, tab_of(6), 40, 3); //@ q=C01,C03,C04,C05,C06,C07,C10,C20 t=C02 to=1200
     insert_n2_sym [4] => h_insert(2, tab_of(6), 40); //@ t=C01,C02,C03,C04,C10 to=2400 solver=portfolio
     insert_n3_collide_k1 [5] => h_insert_k(3, tab_of(0), 40, 1); //@ q=C04 t=C01,C03,C07 to=1200
     insert_n3_distinct_k3 [5] => h_insert_k(3, tab_of(14), 40, 3); //@ t=C04,C01,C03 to=1200
     insert_n3_seedtab_k1 [5] => h_insert_k(3, tab_of(SEED_TAB), 40, 1); //@ q=C04 t=C01,C03 to=1200
-    insert_n1_full [3] => h_insert(1, tab_of(6), 64); //@ q=C01,C02,C03,C10 to=600
-    insert_n0_full [3] => h_insert(0, tab_of(6), 64); //@ q=C01,C02,C10 to=600
+    insert_n2_k0 [4] => h_insert_k(2, tab_of(6), 40, 0); //@ q=C02 to=900
+    insert_n2_k1 [4] => h_insert_k(2, tab_of(6), 40, 1); //@ q=C02 to=900
+    insert_n2_k2 [4] => h_insert_k(2, tab_of(6), 40, 2); //@ q=C02 to=900
+    mutate_n2_k0 [4] => h_mutate_k(2, tab_of(6), 40, 0); //@ q=C02 to=900 solver=cadical
+    mutate_n2_k1 [4] => h_mutate_k(2, tab_of(6), 40, 1); //@ q=C02 to=900 solver=cadical
+    tryinsert_n2_k0 [4] => h_try_insert_k(2, tab_of(6), 40, 0); //@ q=C02 to=900
+    tryinsert_n2_k2 [4] => h_try_insert_k(2, tab_of(6), 40, 2); //@ q=C02 to=900
+    remove_n2_mixed [4] => h_remove(2, tab_of(6), 40, 0); //@ q=C02 to=600
+    remove_entry_n2_collide [4] => h_remove(2, tab_of(0), 40, 1); //@ q=C02 to=600
+    insert_n2_probe_k0 [4] => h_insert_kp(2, tab_of(6), 40, 0, true); //@ t=C02 to=1800 solver=cadical
+    insert_n2_probe_k2 [4] => h_insert_kp(2, tab_of(6), 40, 2, true); //@ t=C02 to=900
+    mutate_n2_probe_k0 [4] => h_mutate_kp(2, tab_of(6), 40, 0, true); //@ t=C02 to=1800 solver=cadical
+    tryinsert_n2_probe_k2 [4] => h_try_insert_kp(2, tab_of(6), 40, 2, true); //@ t=C02 to=900
+    insert_n1_full [3] => h_insert(1, tab_of(6), 64); //@ to=600 t=C01,C02,C03,C10
+    insert_n0_full [3] => h_insert(0, tab_of(6), 64); //@ to=600 t=C01,C02,C10
     insert_n2_full_k0 [4] => h_insert_k(2, tab_of(6), 64, 0); //@ t=C01,C02,C03,C10 to=1800
     insert_n2_full_k2 [4] => h_insert_k(2, tab_of(6), 64, 2); //@ t=C01,C02,C03,C10 to=1800
     setmax_n2_full [4] => h_set_max_size(2, tab_of(6), 64); //@ q=C01,C02,C03,C05,C06,C07,C20 to=600
     setmax_n3_mixed [5] => h_set_max_size(3, tab_of(6), 40); //@ q=C01,C02,C03,C05,C06,C07,C20 to=600
-    setmax_n3_collide_full [5] => h_set_max_size(3, tab_of(0), 64); //@ q=C03 t=C01,C02,C05,C06,C07 to=900
+    setmax_n3_collide_full [5] => h_set_max_size(3, tab_of(0), 64); //@ t=C01,C02,C03,C05,C06,C07 to=900
     setmax_n4_mixed [6] => h_set_max_size(4, tab_of(6), 40); //@ t=C01,C02,C03,C05 to=1200
-    tryinsert_n3_k0 [5] => h_try_insert_k(3, tab_of(6), 40, 0); //@ q=C01,C02,C04,C05,C06,C07,C10,C20 to=900
-    tryinsert_n3_k3 [5] => h_try_insert_k(3, tab_of(6), 40, 3); //@ q=C01,C02,C04,C05,C06,C07,C10,C20 to=900
+    tryinsert_n3_k0 [5] => h_try_insert_k(3, tab_of(6), 40, 0); //@ q=C01,C04,C05,C06,C07,C10,C20 t=C02 to=900
+    tryinsert_n3_k3 [5] => h_try_insert_k(3, tab_of(6), 40, 3); //@ q=C01,C04,C05,C06,C07,C10,C20 t=C02 to=900
     tryinsert_n3_k1 [5] => h_try_insert_k(3, tab_of(6), 40, 1); //@ t=C01,C02,C04,C05,C10 to=900
-    tryinsert_n2_sym_full [4] => h_try_insert(2, tab_of(6), 64); //@ q=C10 t=C01,C02,C04 to=1200
+    tryinsert_n2_sym_full [4] => h_try_insert(2, tab_of(6), 64); //@ t=C01,C02,C04,C10 to=1200
     tryinsert_n2_collide [4] => h_try_insert(2, tab_of(0), 40); //@ q=C04,C10 to=900
-    mutate_n3_k0 [5] => h_mutate_k(3, tab_of(6), 40, 0); //@ q=C01,C02,C03,C05,C06,C07,C11,C20 to=1200 solver=cadical
-    mutate_n3_k1 [5] => h_mutate_k(3, tab_of(6), 40, 1); //@ q=C01,C02,C03,C05,C06,C07,C11,C20 to=1200 solver=cadical
-    mutate_n3_k2 [5] => h_mutate_k(3, tab_of(6), 40, 2); //@ q=C01,C02,C03,C05,C11 t=C06,C07,C20 to=1200 solver=cadical
+    mutate_n3_k0 [5] => h_mutate_k(3, tab_of(6), 40, 0); //@ q=C01,C03,C05,C06,C07,C11,C20 t=C02 to=1200 solver=cadical
+    mutate_n3_k1 [5] => h_mutate_k(3, tab_of(6), 40, 1); //@ q=C01,C03,C05,C06,C07,C11,C20 t=C02 to=1200 solver=cadical
+    mutate_n3_k2 [5] => h_mutate_k(3, tab_of(6), 40, 2); //@ q=C01,C03,C05,C11 t=C06,C07,C20,C02 to=1200 solver=cadical
     mutate_n3_k3 [5] => h_mutate_k(3, tab_of(6), 40, 3); //@ q=C05,C11,C20 t=C01,C02 to=600 solver=cadical
     mutate_n2_sym [4] => h_mutate(2, tab_of(6), 40); //@ t=C01,C02,C03,C11 to=3000 solver=portfolio
     mutate_n3_collide_k0 [5] => h_mutate_k(3, tab_of(0), 40, 0); //@ t=C01,C03,C07,C11 to=1200 solver=cadical
-    mutate_n1_full [3] => h_mutate(1, tab_of(6), 64); //@ q=C01,C02,C11 to=600 solver=cadical
+    mutate_n1_full [3] => h_mutate(1, tab_of(6), 64); //@ to=600 solver=cadical t=C01,C02,C11
     mutate_n2_full_k0 [4] => h_mutate_k(2, tab_of(6), 64, 0); //@ t=C01,C02,C03,C11 to=1800 solver=cadical
-    remove_n3_mixed [5] => h_remove(3, tab_of(6), 40, 0); //@ q=C01,C02,C04,C05,C06,C07,C20 to=600
-    remove_entry_n3_collide [5] => h_remove(3, tab_of(0), 40, 1); //@ q=C02,C04,C05,C06,C07,C20 to=600
+    remove_n3_mixed [5] => h_remove(3, tab_of(6), 40, 0); //@ q=C01,C04,C05,C06,C07,C20 t=C02 to=600
+    remove_entry_n3_collide [5] => h_remove(3, tab_of(0), 40, 1); //@ q=C04,C05,C06,C07,C20 t=C02 to=600
     remove_lru_n3_mixed [5] => h_remove(3, tab_of(6), 40, 2); //@ q=C02,C04,C05,C06,C07,C20 to=600
     remove_mru_n3_mixed [5] => h_remove(3, tab_of(6), 40, 3); //@ q=C02,C04,C05,C06,C07,C20 to=600
     remove_n0 [3] => h_remove(0, tab_of(6), 40, 2); //@ q=C04 t=C02 to=600
@@ -596,8 +625,8 @@ harnesses! {
     contains_n3_mixed [5] => h_access(3, tab_of(6), 6); //@ q=C04,C05,C19,C20 to=600
     peek_lru_n3_mixed [5] => h_access(3, tab_of(6), 7); //@ q=C05,C19,C20 to=600
     peek_mru_n3_mixed [5] => h_access(3, tab_of(6), 8); //@ q=C05,C19,C20 to=600
-    retain_n3_mixed [5] => h_retain(3, tab_of(6)); //@ q=C01,C02,C04,C05,C06,C07,C15,C20 to=900
-    retain_n2_collide [4] => h_retain(2, tab_of(0)); //@ q=C15 t=C04,C07 to=900
+    retain_n3_mixed [5] => h_retain(3, tab_of(6)); //@ q=C01,C04,C05,C06,C07,C15,C20 t=C02 to=900
+    retain_n2_collide [4] => h_retain(2, tab_of(0)); //@ q=C15,C02 t=C04,C07 to=900
     retain_n4_mixed [6] => h_retain(4, tab_of(6)); //@ t=C15,C05,C06 to=1200
     history_ins_ins [4] => h_history(&[0, 0], 40); //@ t=C01,C02,C07 to=1800
     history_ins_ins_mut [4] => h_history(&[0, 0, 3], 40); //@ t=C01,C02,C07 to=3000 solver=portfolio
